@@ -97,14 +97,18 @@ static inline int qpres_type(qpres p) { return PRES_TYPE(p); }
 /* ---- QXmppIq / QXmppRosterIq.  ASSUMED contract of QXmppRosterIq::parse (QXmppStanza::parse, QXmppIq::parse and
  * QXmppRosterIq::parseElementFromChild are not lowered here): after parse(e)  id() == e.attribute("id"),
  * type() and items() are functions of e. */
-typedef struct QXmppIq { int type; qstr id; } QXmppIq;
-static inline void QXmppIq_ctor(QXmppIq *q, int type) { q->type = type; q->id = nondet_qstr(); /* a freshly generated id */ }
+typedef struct QXmppIq { int type; qstr id; qstr to; } QXmppIq;
+static inline void QXmppIq_ctor(QXmppIq *q, int type) { q->type = type; q->id = nondet_qstr(); /* a freshly generated id */ q->to = 0; }
 static inline void QXmppIq_setId(QXmppIq *q, qstr id) { q->id = id; }
+static inline void QXmppIq_setTo(QXmppIq *q, qstr to) { q->to = to; }
 typedef struct QXmppRosterIq { qdom src; bool parsed; } QXmppRosterIq;
 int __CPROVER_uninterpreted_iq_type(qdom e);
 qitemlist __CPROVER_uninterpreted_rosteriq_items(qdom e);
 bool __CPROVER_uninterpreted_is_roster_iq(qdom e);
-#define IQ_TYPE(e) __CPROVER_uninterpreted_iq_type(e)
+/* ASSUMED contract of QXmppIq::parse (QXmppIq.cpp: d->type = enumFromString<Type>(IQ_TYPES, attribute("type")).value_or(Get)):
+   the type is the enumerator named by the type attribute: error = 0, get = 1, set = 2, result = 3, anything else Get */
+#define IQ_TYPE_ATTR(e) ((e) == 0 ? 0 : __CPROVER_uninterpreted_dom_attr((e), S("type")))
+#define IQ_TYPE(e) (IQ_TYPE_ATTR(e) == S("error") ? 0 : IQ_TYPE_ATTR(e) == S("set") ? 2 : IQ_TYPE_ATTR(e) == S("result") ? 3 : 1)
 #define IQ_ITEMS(e) __CPROVER_uninterpreted_rosteriq_items(e)
 #define IQ_ID(e) ((e) == 0 ? 0 : __CPROVER_uninterpreted_dom_attr((e), S("id")))
 #define IQ_FROM(e) ((e) == 0 ? 0 : __CPROVER_uninterpreted_dom_attr((e), S("from")))
@@ -114,10 +118,9 @@ static inline void QXmppRosterIq_parse(QXmppRosterIq *q, qdom e) { q->src = e; q
 static inline int QXmppRosterIq_type(const QXmppRosterIq *q)
 {
   MODEL_LIMIT(q->parsed, "type() of a roster IQ that was not parsed");
-  int t = IQ_TYPE(q->src);
-  __CPROVER_assume(t >= 0 && t <= 3);   /* QXmppIq::Type has four values; parse() maps anything else to Get */
-  return t;
+  return IQ_TYPE(q->src);
 }
+static inline qstr QXmppRosterIq_from(const QXmppRosterIq *q) { MODEL_LIMIT(q->parsed, "from() of a roster IQ that was not parsed"); return IQ_FROM(q->src); }
 static inline qstr QXmppRosterIq_id(const QXmppRosterIq *q) { MODEL_LIMIT(q->parsed, "id() of a roster IQ that was not parsed"); return IQ_ID(q->src); }
 static inline qitemlist QXmppRosterIq_items(const QXmppRosterIq *q) { MODEL_LIMIT(q->parsed, "items() of a roster IQ that was not parsed"); return IQ_ITEMS(q->src); }
 static inline bool QXmppRosterIq_isRosterIq(qdom e) { return e != 0 && __CPROVER_uninterpreted_is_roster_iq(e); }
@@ -135,10 +138,10 @@ bool gh_authenticated;
 qstr gh_cfg_jidBare;
 
 /* ---- event log: packets sent, signals */
-int gh_sent; int gh_sent_type; qstr gh_sent_id;
+int gh_sent; int gh_sent_type; qstr gh_sent_id; qstr gh_sent_to;
 static inline bool QXmppClient_sendPacket(QXmppClient *c, const QXmppIq *iq)
 {
   if (gh_sent < 1000) gh_sent++;
-  gh_sent_type = iq->type; gh_sent_id = iq->id;
+  gh_sent_type = iq->type; gh_sent_id = iq->id; gh_sent_to = iq->to;
   return nondet_bool();
 }
